@@ -7,7 +7,7 @@
    [read_row fixed es row] the trace read path (OutputQuery) on a stored row.
    Accepted spans have 16-byte trace ids and 8-byte span ids (onSpan rejects every other width): part of [row_of]. *)
 From Coq Require Import List ZArith NArith Bool String Permutation.
-From Qryn Require Import model.Spans model.SpansChunk model.SpansWire model.SpansStore model.SpansJson proofs.SpansProofs proofs.SpansChunkProofs
+From Qryn Require Import model.Spans model.SpansChunk model.SpansWire model.SpansStore model.SpansJson model.SpansWireX proofs.SpansWireXProofs proofs.SpansProofs proofs.SpansChunkProofs
   proofs.SpansTimeProofs proofs.SpansWireProofs proofs.SpansStoreProofs proofs.SpansJsonProofs proofs.SpansNumProofs.
 Import ListNotations.
 Open Scope Z_scope.
@@ -240,7 +240,33 @@ Theorem zipkin_events_read_back : forall fs l evs,
 Proof. exact zipkin_events_read_back_l. Qed.
 Print Assumptions zipkin_events_read_back.
 
+(* The check's oracle on the observed kind and events (events_spec / kind_spec, evaluated on the implementation's read-back) accepts the
+   model: whenever every annotation of the stored text denotes an event, the read path returns exactly those events, and the kind the
+   text names. *)
+Theorem events_spec_sound : forall t evs, events_spec t = Some evs -> read_events t = evs.
+Proof. exact events_spec_sound_l. Qed.
+Print Assumptions events_spec_sound.
+
+Theorem kind_spec_sound : forall q row t k r, kind_spec t = Some k -> parse_zipkin q row (abs t) = Some r -> rs_kind r = k.
+Proof. exact kind_spec_sound_l. Qed.
+Print Assumptions kind_spec_sound.
+
 (* strconv.ParseInt after %d: the decimal text of z parses back to z exactly when z lies in int64, and is refused outside *)
 Theorem parse_print_int64 : forall z, parse_int64 (print_Z z) = if in_int64 z then Some z else None.
 Proof. exact parse_print_int64_l. Qed.
 Print Assumptions parse_print_int64.
+
+(* ---- events and status of an OTLP span: the write path leaves them alone and re-marshals the span, so they are part of the stored bytes
+   ([enc_spanx s x] = the bytes proto.Marshal emits for the span s carrying the events and status x: compared with every payload the
+   implementation stores).  Decoding the stored bytes returns the span AND its events (time, name, attributes) and status (message, code),
+   for every span of the domain (event times uint64, status code a non-negative int32, attribute values as in span_wire_ok). *)
+Theorem payload_decode_encode_events_status : forall s x,
+  span_wire_ok s = true -> extra_ok x = true -> dec_spanx (enc_spanx s x) = Some (s, x).
+Proof. exact dec_enc_spanx. Qed.
+Print Assumptions payload_decode_encode_events_status.
+
+(* what the read path hands on: the pushed events and the pushed status code, UNSET (0) when the span has no status *)
+Theorem events_status_read_back : forall s x, span_wire_ok s = true -> extra_ok x = true ->
+  option_map (fun p => read_extra (snd p)) (dec_spanx (enc_spanx s x)) = Some (read_extra x).
+Proof. exact read_extra_of_bytes. Qed.
+Print Assumptions events_status_read_back.
